@@ -16,6 +16,15 @@ check("C02", "proof",
       "DoubleType; raising sub-expressions over result()'s exception tuple); CPython semantics as modelled; every path "
       "cross-checked against CPython. all()/exists() fold lemma: see evidence (added in a later revision).",
       "contract-based deductive verification: symbolic execution of real AST and of the emitted code + z3", "DESIGN.md 4/C02")
+check("C13", "proof",
+      "For every row of the result-type table (operators, functions, conversions over int/uint/double/bool/string/bytes/"
+      "list/map) the real base_functions entry is executed symbolically on operands of the row's classes with arbitrary "
+      "payloads; on every returning path the class of the result must be exactly the library class of the row's type. "
+      "`type(e) == T` is an exhaustive 12x12 table. Rows over timestamp/duration are run on representative instances "
+      "(bounded, labelled).",
+      "Finite class universe; builtin operators on subclass instances return the base type (pyvc.models, cross-checked "
+      "against CPython); time rows are a bounded stand-in; macro result classes are covered by C02/C09 contracts.",
+      "contract-based deductive verification (class postcondition on every path) + exhaustive finite table", "DESIGN.md 4/C13")
 _pending = "contracts for this property are not built yet in this revision (work in progress, see DESIGN.md section 8 build order)"
-for _p in ["C03","C04","C05","C06","C07","C08","C09","C10","C11","C12","C13","C14","C15","C16","C17","C18","C19","C20"]:
+for _p in ["C03","C04","C05","C06","C07","C08","C09","C10","C11","C12","C14","C15","C16","C17","C18","C19","C20"]:
     NA[_p] = _pending
